@@ -220,6 +220,16 @@ def run(ctx: Any, prog: Program) -> None:
             ctx.check('C15.F1', gk == 'param', vtf, q, f'save() decides `{U(q.test)[:50]}` from self.version, not from the version it was asked to write: with save(version=...) the header carries the requested version '
                       'while this part of the file is laid out for the object\'s own one (resource table present or absent, offsets shifted)', func='VTF.save', text=f'gate `{U(q.test)[:40]}` follows the written version')
     ctx.shape('C15.F1', n_gates >= 5, vtf, sv, f'{n_gates} version gates found in save() (at least 5 confirmed by hand)', func='VTF.save', text='version gates of save()')
+    # a header slot carries the field itself: a local that save() masks or edits before packing it (`flags &= ~ALPHA` when the format has no
+    # alpha bits) writes another value than the object holds, and read() hands that other value back
+    for i_, wa_ in enumerate(wargs):
+        if wa_ is None:
+            continue
+        for nm_ in {x.id for x in ast.walk(wa_) if isinstance(x, ast.Name)}:
+            edits_ = [a for a in walk_no_nested(sv) if isinstance(a, ast.AugAssign) and isinstance(a.target, ast.Name) and a.target.id == nm_ and isinstance(a.op, (ast.BitAnd, ast.BitOr, ast.BitXor))]
+            if edits_:
+                ctx.check('C15.F1', False, vtf, edits_[0], f'save() edits the local `{nm_}` (`{U(edits_[0])[:50]}`) before packing it into header slot {i_}: the file holds a masked copy of the field, so the flags read back '
+                          'differ from the flags of the object that was saved', func='VTF.save', text=f'header slot {i_} is packed as the object holds it')
     # resource count = entries written
     # the count is whatever save() packs into the `<3xI8x` resource header
     cnt_packs = [c for c in walk_no_nested(sv) if isinstance(c, ast.Call) and dotted(c.func) == 'struct.pack' and len(c.args) == 2 and isinstance(c.args[0], ast.Constant) and expand(str(c.args[0].value)) == expand('<3xI8x')
@@ -426,6 +436,24 @@ def run(ctx: Any, prog: Program) -> None:
     ctx.shape('C15.F2', seen_create, vtf, cloop[0], 'the mipmap loop of the constructor stores into self._frames[..., level]', func='VTF.__init__', text='level creation inside the mipmap loop')
     ctx.check('C15.F2', val.replace(' ', '') == want.replace(' ', ''), vtf, asg[0], f'the constructor creates mipmap levels 0..{lv} (level created before the loop breaks) but declares mipmap_count = {val}: save() and read() iterate '
               f'range(mipmap_count), so the smallest level is never written, and a texture with a 1-pixel side (count 0) is saved without any image data', func='VTF.__init__', text='frame table = range(mipmap_count)')
+    # the buffer a Frame exports is row-major like its own indexing (`(y * width + x) * 4`): shape (height, width, 4)
+    fb_ = vtf.methods('Frame').get('__buffer__')
+    if fb_ is not None:
+        casts_ = [c for c in ast.walk(fb_) if isinstance(c, ast.Call) and isinstance(c.func, ast.Attribute) and c.func.attr == 'cast' and len(c.args) == 2]
+        ctx.shape('C15.F2', len(casts_) == 1, vtf, fb_, 'Frame.__buffer__ casts its data to a three-dimensional view', func='Frame.__buffer__', text='buffer shape')
+        for c_ in casts_:
+            ldefs_ = {t.id: a.value for a in ast.walk(fb_) if isinstance(a, ast.Assign) and len(a.targets) == 1 for t in a.targets if isinstance(t, ast.Name)}
+            def _flat(e: ast.AST) -> List[str]:
+                if isinstance(e, ast.Tuple):
+                    return [y for x in e.elts for y in _flat(x)]
+                if isinstance(e, ast.Starred):
+                    return _flat(e.value)
+                if isinstance(e, ast.Name) and e.id in ldefs_:
+                    return _flat(ldefs_[e.id])
+                return [U(e)]
+            shp_ = _flat(c_.args[1])
+            ctx.check('C15.F2', shp_ == ['self.height', 'self.width', '4'], vtf, c_, f'Frame.__buffer__ exports its pixels with shape ({", ".join(shp_)}); the data is stored row by row (`(y * width + x) * 4`), i.e. as '
+                      '(height, width, 4): for a non-square frame view[y, x] addresses another pixel than frame[x, y], and valid coordinates on the long side are refused', func='Frame.__buffer__', text='buffer shape is (height, width, 4)')
     # save(): side sequence computed from the version written
     has_override = any(a.arg == 'version' for a in sv.args.args)
     dr = vm['_depth_range']
@@ -1149,6 +1177,7 @@ def accepted_region(test: ast.AST, coords: Tuple[str, str] = ('x', 'y')) -> Dict
 
 
 MUTANTS: List[Dict[str, Any]] = [
+    {'id': 'frame_buffer_shape_transposed', 'file': 'vtf.py', 'find': ".cast('B', (self.height, self.width, 4))", 'replace': ".cast('B', (self.width, self.height, 4))", 'expect': 'C15.F2', 'note': 'round 13'},
     {'id': 'depth_field_gate_drops_7_2', 'file': 'vtf.py', 'find': "        if version_minor >= 2:\n            [vtf.depth] = struct.unpack('H', file.read(2))", 'replace': "        if vtf.version > (7, 2):\n            [vtf.depth] = struct.unpack('H', file.read(2))", 'expect': 'C15.F1', 'note': 'round 12: gate on the version pair of the object under construction'},
     {'id': 'resource_gate_from_own_version', 'file': 'vtf.py', 'find': "        if version_minor >= 3:\n            deferred.set_data('low_res', file.tell())", 'replace': "        if self.version >= (7, 3):\n            deferred.set_data('low_res', file.tell())", 'expect': 'C15.F1', 'note': 'round 11'},
     {'id': 'sequence_number_bounded_by_count', 'file': 'vtf.py', 'find': "            if not (0 <= seq_num < SheetSequence.MAX_COUNT):", 'replace': "            if seq_num >= sequence_count:", 'expect': 'C15.F6', 'note': 'round 11'},
